@@ -143,7 +143,13 @@ def handler(case):
         c["A"] = case["A"]
         ev = run_call(c, case["id"])
         v = verdict_m1(ev, exp)
-        out = {"v": v, "zone": exp["zone"], "op": c["op"], "st": ev["st"]}
+        Lx = len(c["x"][0]); m_ = len(c["mo"][0][0]) if c["mo"] else 0
+        s_, e_ = c["start"], c["end"]
+        if c["op"] in ("delete", "randomize"):
+            nt = s_ <= 0 or e_ >= Lx - 1 or abs(e_ - s_) <= 1
+        else:
+            nt = any(len(mb) != 1 for mb in c["mo"]) or s_ == NOSTART or s_ <= 0 or s_ >= Lx - m_ - 1
+        out = {"v": v, "zone": exp["zone"], "op": c["op"], "st": ev["st"], "nontrivial": bool(nt)}
         if v or c["op"] == "randomize" or case["id"] % 997 == 0:
             out["ev"] = ev
             out["exp"] = exp
